@@ -27,12 +27,13 @@ LEVEL_TEXT = ("Machine-checked Coq theorems (one dot/link/box per label in order
 LEVEL_NOTE = ("Trusted: Coq kernel; extraction re-checked on a slice by vm_compute; the correspondence harness (SVG/TikZ parsers, "
               "generators; integers and strings exact; %f/%.16f decimals digit for digit, %.8f digit for digit when all sizes are "
               "dyadic and else to the printed precision; str() numbers to relative 1e-9). scale(time) and tickFormat are inputs of THIS tie (the document model); "
-              "the map time -> position is the axis-pipeline model of C07_affine, tied by ./check C11; tick TEXTS are checked "
-              "by the oracle only; the digit string of str() is not modelled, only its value. Hypothesis of C07_link_end: for direction up the label is as thick as the "
+              "the map time -> position and the tick TEXTS are the axis-pipeline model (C07_affine, C07_ticktext; "
+              "Time/TickFormat.v models mytimeformat and the fixed-point linear format), tied exactly by ./check C11; the "
+              "digit string of str() is not modelled, only its value. Hypothesis of C07_link_end: for direction up the label is as thick as the "
               "layer (C07_thickness_uniform proves it for explicit widths). Modelled, not verified: labella/*.py; doubles as "
               "exact rationals (truncations within 1e-7 of an integer on non-dyadic inputs are counted as ambiguous).")
 TECHNIQUE = "Coq proof (induction on the stub chain and on the label list; linear arithmetic over Q) + model/implementation correspondence on parsed SVG and TikZ"
-ASSUMPTIONS = ["tick texts (tickFormat) are not modelled: checked by the property oracle on every case",
+ASSUMPTIONS = ["the C-locale month and weekday names of strftime (tick texts) are modelled as literals; another LC_TIME would change the texts",
                "direction up: every label is as thick as the layer (proved for explicit widths by C07_thickness_uniform)"]
 
 impl = rc.impl
